@@ -134,6 +134,7 @@ inductive Act where
   | aStep                  -- adapter: one iteration of `for buf := range clientInputs`
   | emit (k f v : Nat)     -- the service hands `v` to forwarder `f` of channel `k`
   | svcClose (k : Nat)     -- the service closes channel `k`
+  | emitBad (k f : Nat)    -- the service hands forwarder `f` of channel `k` a value `protobuf.Encode` refuses
   | fStep (k f : Nat)      -- forwarder: put the held value into `outChan` / end on a closed channel
   | fDrop (k f : Nat)      -- forwarder: the `<-stopAll` case of its select
   | stop (k : Nat)         -- stopper of channel `k`
@@ -252,6 +253,17 @@ def step (v : Variant) (caps : Caps) (s : St) : Act → Option St := fun a =>
       match getFwd st f with
       | some .recv =>
         some { s with streams := s.streams.set k (setFwd { st with emitted := st.emitted ++ [x] } f (.hold x)) }
+      | _ => none
+  | .emitBad k f =>
+    -- processor.go:631-635: `buf, err := protobuf.Encode(v.Interface()); if err != nil { log.Error(err); return }`
+    -- — the forwarder ends (its deferred function runs) although the service has not closed the
+    -- channel; the value is not a message of the stream (`emitted` is what can be delivered)
+    match s.streams[k]? with
+    | none => none
+    | some st =>
+      if st.chanClosed || st.noOut then none else
+      match getFwd st f with
+      | some .recv => some (fwdExit v { s with streams := s.streams.set k (setFwd st f .done) })
       | _ => none
   | .svcClose k =>
     match s.streams[k]? with
@@ -549,6 +561,10 @@ def step (s : State) (toks : List String) : State × String :=
     -- a ping of a raw client: the library answers it under the reader's `ReadMessage` with a control
     -- frame of its own; the reader routine itself writes nothing, so the write loop is not disturbed
     (s, if (find s n).isSome then "ok" else "bad-op")
+  | ["emitbad", n, k] =>
+    match k.toNat?, find s n with
+    | some k, some c => ok s (ext c (.emitBad k 0))
+    | _, _ => (s, "bad-op")
   | ["svcclose", n, k] =>
     match k.toNat?, find s n with
     | some k, some c => ok s (ext c (.svcClose k))
